@@ -335,7 +335,7 @@ func c08newModule() (*ir.Module, *c08env) {
 }
 
 // c08shapes enumerates all function shapes within the bounds.
-func c08shapes(maxParams, maxBlocks, maxInsts int, instKinds, termKinds []int) []c08func {
+func c08shapes(maxParams, minBlocks, maxBlocks, maxInsts int, instKinds, termKinds []int) []c08func {
 	var paramSets [][]bool
 	for n := 0; n <= maxParams; n++ {
 		for mask := 0; mask < 1<<n; mask++ {
@@ -380,7 +380,7 @@ func c08shapes(maxParams, maxBlocks, maxInsts int, instKinds, termKinds []int) [
 			}
 		}
 	}
-	for nb := 1; nb <= maxBlocks; nb++ {
+	for nb := minBlocks; nb <= maxBlocks; nb++ {
 		build(nil, nb)
 	}
 	return out
@@ -723,13 +723,20 @@ func runC08(c *fw.Check) {
 	instKinds := []int{kValU, kValN, kVoidC, kCallU, kStore, kVoidCT}
 	termKinds := []int{tBr, tInvV, tInvU, tCbrU}
 	if !c.Quick() {
-		maxB, maxI, modLen = 3, 2, 4
+		modLen = 4
 		instKinds = []int{kValU, kValN, kVoidC, kCallU, kCallN, kStore, kFence, kVoidCT, kVoidCV}
 		termKinds = []int{tBr, tInvV, tInvU, tInvN, tCbrV, tCbrU}
 		c.SetBudget(50 * 60 * 1e9)
 	}
-	shapes := c08shapes(maxP, maxB, maxI, instKinds, termKinds)
-	c.Rule = fmt.Sprintf("ALL function shapes with <=%d params (named/unnamed), <=%d blocks (named/unnamed), <=%d instructions per block over %d instruction kinds and %d terminator kinds (void and non-void, named and unnamed calls, invokes, callbrs, stores, fences), each emitted with explicit numbers from an independent 20-line model of LLVM's rule (validated by llvm-as on every shape), with implicit result numbers, with implicit block labels, and built through the API; ALL module shapes of length <=%d over {named,unnamed} x {global, alias, ifunc, declaration, definition}. Oracle: parser accepts every spelling LLVM accepts, String() does not panic, llvm-as accepts the printed numbering and reads the same functions (llvm-dis canonical form, so every %%N/@N is bound to the right value), numbering again changes nothing. distinct = shapes x forms.", maxP, maxB, maxI, len(instKinds), len(termKinds), modLen)
+	shapes := c08shapes(maxP, 1, maxB, maxI, instKinds, termKinds)
+	deep := ""
+	if !c.Quick() {
+		// three blocks with at most one instruction each (the full 3-block x 2-instruction space
+		// has 1.5e9 shapes and is out of reach).
+		shapes = append(shapes, c08shapes(maxP, 3, 3, 1, instKinds, termKinds)...)
+		deep = " plus ALL 3-block shapes with <=1 instruction per block,"
+	}
+	c.Rule = fmt.Sprintf("ALL function shapes with <=%d params (named/unnamed), <=%d blocks (named/unnamed), <=%d instructions per block"+deep+" over %d instruction kinds and %d terminator kinds (void and non-void, named and unnamed calls, invokes, callbrs, stores, fences), each emitted with explicit numbers from an independent 20-line model of LLVM's rule (validated by llvm-as on every shape), with implicit result numbers, with implicit block labels, and built through the API; ALL module shapes of length <=%d over {named,unnamed} x {global, alias, ifunc, declaration, definition}. Oracle: parser accepts every spelling LLVM accepts, String() does not panic, llvm-as accepts the printed numbering and reads the same functions (llvm-dis canonical form, so every %%N/@N is bound to the right value), numbering again changes nothing. distinct = shapes x forms.", maxP, maxB, maxI, len(instKinds), len(termKinds), modLen)
 	c.Extra["function_shapes"] = len(shapes)
 	const batch = 150
 	nb := (len(shapes) + batch - 1) / batch
